@@ -4,6 +4,8 @@ import (
 	"fmt"
 	"strings"
 
+	restful "github.com/emicklei/go-restful/v3"
+
 	"verifharness/internal/drv"
 	"verifharness/internal/rng"
 	"verifharness/internal/sx"
@@ -17,6 +19,20 @@ type History struct {
 	Model []*Result
 	Line  string
 	Spec  []map[string]string // per request: property id -> "1"/"0"
+	// WriterBlocked: after the history was served, Add+Remove of a throw-away WebService did not
+	// return within the watchdog's time (WriterFree): a lock was left held
+	WriterBlocked bool
+}
+
+// serveNorm serves one request of a history and keeps SReq.CondPanic only when an If-condition was
+// in fact evaluated for it (the routers evaluate conditions only for routes whose path matches;
+// otherwise the header is inert and the request is the same request without it).
+func serveNorm(cont *restful.Container, cfg *Cfg, rq SReq, led *Ledger) (SReq, *Result) {
+	res := Serve(cont, cfg, rq, led)
+	if rq.CondPanic != "" && !res.CondRan {
+		rq.CondPanic = ""
+	}
+	return rq, res
 }
 
 var SkippedBuild int
@@ -24,7 +40,7 @@ var SkippedBuild int
 func histLine(id int, cfg *Cfg, reqs []SReq, real []*Result) string {
 	h := sx.K("hist")
 	for i, r := range reqs {
-		n := sx.K("h", sx.A(r.Entry), r.Sx())
+		n := sx.K("h", sx.A(r.DriverEntry()), r.Sx())
 		if real != nil {
 			n.List = append(n.List, realSx(real[i]))
 		}
@@ -68,11 +84,14 @@ func RunOne(cfg *Cfg, reqs []SReq) (*History, error) {
 		return nil, err
 	}
 	led := Install(cfg.Provider)
-	h := &History{Cfg: cfg, Reqs: reqs}
+	h := &History{Cfg: cfg}
 	for _, r := range reqs {
-		h.Real = append(h.Real, Serve(cont, cfg, r, led))
+		rq, res := serveNorm(cont, cfg, r, led)
+		h.Reqs = append(h.Reqs, rq)
+		h.Real = append(h.Real, res)
 	}
-	h.Line = histLine(0, cfg, reqs, h.Real)
+	h.WriterBlocked = !WriterFree(cont)
+	h.Line = histLine(0, cfg, h.Reqs, h.Real)
 	ans, err := drv.Run([]string{h.Line})
 	if err != nil {
 		return nil, err
@@ -96,7 +115,7 @@ func fillHistory(h *History, answer string) error {
 		if err != nil {
 			return err
 		}
-		m.KeepErr = h.Cfg.CustomErr
+		m.KeepErr = h.Cfg.CustomErr && !h.Reqs[len(h.Model)].RouterErr
 		h.Model = append(h.Model, m)
 		sp := map[string]string{}
 		for _, s := range a.List {
@@ -123,7 +142,7 @@ func Run(seed uint64, n int, o GenOpts, maxLen int) ([]*History, error) {
 		k := 1 + r.Intn(maxLen)
 		reqs := make([]SReq, 0, k)
 		for j := 0; j < k; j++ {
-			reqs = append(reqs, GenReq(r, o, cfg))
+			reqs = append(reqs, GenReqAfter(r, o, cfg, reqs))
 		}
 		cont, err := BuildFor(cfg, reqs)
 		if err != nil {
@@ -136,10 +155,11 @@ func Run(seed uint64, n int, o GenOpts, maxLen int) ([]*History, error) {
 		led := Install(cfg.Provider)
 		h := &History{Cfg: cfg}
 		for j := 0; j < k; j++ {
-			rq := reqs[j]
+			rq, res := serveNorm(cont, cfg, reqs[j], led)
 			h.Reqs = append(h.Reqs, rq)
-			h.Real = append(h.Real, Serve(cont, cfg, rq, led))
+			h.Real = append(h.Real, res)
 		}
+		h.WriterBlocked = !WriterFree(cont)
 		h.Line = histLine(len(hs), cfg, h.Reqs, h.Real)
 		lines = append(lines, h.Line)
 		hs = append(hs, h)
